@@ -262,6 +262,13 @@ func scC11(r *Run) {
 			}
 		}
 	}
+	if T.Chance(1, 5) {
+		for _, st := range o.streams {
+			st.hintNoBlock = true
+			st.version = 9
+		}
+		r.Probe("preload-hint-without-block-reload")
+	}
 	w := newCliWorld(r, o, o.primaryURL(), plainFate(T, Pick(T, 0, 5, 50, 400)))
 	w.limit = 3 * time.Minute
 	w.afterWait = 2 * time.Second
